@@ -550,45 +550,45 @@ static void sc_signal_close(void) {
 
 /* ---- 6c. a server at its descriptor limit: connections are shed (uv__emfile_trick), every
    client is either accepted or disconnected, and the loop does not spin ------------------------ */
-static int sh_resolved[NCONN];
-static void sh_resolve(int i) { if (!sh_resolved[i]) { sh_resolved[i] = 1; pend--; } }
+static int sh_done, sh_ok[NCONN];
 static void sh_read_cb(uv_stream_t* s, ssize_t n, const uv_buf_t* b) {
   (void) b;
-  if (n < 0) { cbevx("shed_client", n); uv_read_stop(s); sh_resolve((int) ((uv_tcp_t*) s - mc_cli)); }
+  if (n < 0) { cbevx("shed_client", n); uv_read_stop(s); sh_done++; pend--; }
 }
 static void sh_connect_cb(uv_connect_t* r, int st) {
   cbevx("connect", st);
   pend--;
   if (st == 0) uv_read_start(r->handle, alloc_cb, sh_read_cb);
-  else sh_resolve((int) ((uv_tcp_t*) r->handle - mc_cli));
+  else { sh_done++; pend--; }
 }
 static void sh_conn_cb(uv_stream_t* srv, int st) {
-  cbevx("connection", st);
+  /* informational: a shed connection is never announced, and that is the designed behaviour */
+  ev("info.connection=%s", st < 0 ? uv_err_name(st) : "0");
   if (st == 0 && mc_nacc < NCONN) {
     uv_tcp_init(&L, &mc_acc[mc_nacc]);
-    if (APIX("accept", uv_accept(srv, (uv_stream_t*) &mc_acc[mc_nacc])) == 0) {
-      /* tell the client: it resolves when it sees our EOF */
-      uv_close((uv_handle_t*) &mc_acc[mc_nacc], NULL);
-      mc_nacc++;
-    } else uv_close((uv_handle_t*) &mc_acc[mc_nacc], NULL);
+    /* accepted connections stay open: the server keeps sitting at its descriptor limit */
+    if (APIX("info.accept", uv_accept(srv, (uv_stream_t*) &mc_acc[mc_nacc])) == 0) { mc_nacc++; sh_done++; pend--; }
+    else uv_close((uv_handle_t*) &mc_acc[mc_nacc], NULL);
   }
 }
 static void sc_tcp_shed(void) {
-  struct sockaddr_in a; int len = sizeof a, i;
-  memset(&S, 0, sizeof S); mc_nacc = 0; memset(sh_resolved, 0, sizeof sh_resolved);
+  struct sockaddr_in a; int len = sizeof a, i, w;
+  memset(&S, 0, sizeof S); mc_nacc = 0; sh_done = 0;
   if (loop_begin()) return;
   uv_tcp_init(&L, &S.srv.tcp);
   uv_ip4_addr("127.0.0.1", 0, &a);
+  /* the clients' sockets exist before the server runs into its limit; they connect in three waves
+     of two, so that a later wave finds the server after an earlier shedding episode */
+  for (i = 0; i < NCONN; i++) sh_ok[i] = APIX("tcp_init_ex", uv_tcp_init_ex(&L, &mc_cli[i], AF_INET)) == 0;
   if (API("tcp_bind", uv_tcp_bind(&S.srv.tcp, (struct sockaddr*) &a, 0)) == 0 &&
       API("listen", uv_listen(&S.srv.s, 16, sh_conn_cb)) == 0 &&
       API("getsockname", uv_tcp_getsockname(&S.srv.tcp, (struct sockaddr*) &a, &len)) == 0) {
-    for (i = 0; i < NCONN; i++) {
-      uv_tcp_init(&L, &mc_cli[i]);
-      if (APIX("connect", uv_tcp_connect(&mc_req[i], &mc_cli[i], (struct sockaddr*) &a, sh_connect_cb)) == 0) pend += 2;
+    for (w = 0; w < 3; w++) {
+      for (i = 2 * w; i < 2 * w + 2; i++)
+        if (sh_ok[i] && APIX("connect", uv_tcp_connect(&mc_req[i], &mc_cli[i], (struct sockaddr*) &a, sh_connect_cb)) == 0) pend += 2;
+      if (run_pending()) break;
     }
-    run_pending();
-    for (i = 0, len = 0; i < NCONN; i++) len += sh_resolved[i];
-    ev("resolved=%d", len);
+    ev("resolved=%d", sh_done);
   }
   loop_end();
 }
